@@ -104,6 +104,10 @@ def judge(ctx, binary, cases):
                 val = t.get(key, "missing")
                 if not (val.startswith("exact") or val.startswith("approx") or val.startswith("nan-columns")):
                     v["soft"].append((key, val.split(":")[0].split("@")[0]))
+            if t.get("robust", "skipped") not in ("ok", "ok2", "skipped"):
+                # the manifest claims extremality is certified soundly as run (N <= 16 / 32): an inconclusive certificate
+                # is a broken obligation of the check (not a failing input)
+                v["soft"].append(("robust", t.get("robust")))
             v["cmp"] = t.get("cmp", "")
             v["robust"] = t.get("robust", "")
             verdicts[n] = v
@@ -155,6 +159,7 @@ WHAT = {
     "pre": "the matrix handed to the eigensolver differs from the model (mdsPre / kpcaPre)",
     "post": "embedding != V * diag(sqrt(lambda))",
     "driver": "model driver could not judge the case",
+    "robust": "the tolerance-proof extremality certificate (Cert.extremalDeflated) did not close",
 }
 
 
